@@ -40,6 +40,10 @@ CHECKS = {
  "C14": ("exploration", "event-fold monitor: each client's user list folded from add/change/delete vs Group.GetClients at logical quiescence",
    "Real server in a child process, 4-12 websocket clients over 3 groups, 3 concurrent drivers issuing random membership/moderation/setdata actions; at check points (ping/pong barrier quiescence) every client's folded view must equal the true membership (ids, usernames, permissions, data); duplicate adds, deletes of absent ids, cross-group events and phantom members are violations. Held on the executions observed.",
    "Convergence is bounded progress: quiescence watchdog 30 s => inconclusive.", "5/C14"),
+
+ "C07": ("exploration", "reference-model monitor over signalling events of real PeerConnections (offers' msid media sections, close/abort) at logical quiescence points",
+   "Real server in a child process; clients with real pion PeerConnections publish audio / video / audio+video / audio+two-video streams (first packets sent track by track) and subscribe with random request maps, per-stream requests, aborts, replacements, leaves, disconnects, kicks and unpresent; after every step each (subscriber, stream) pair is compared with the model of the property text; every offer's source/username/label is checked, closes must be justified and must reach everyone. Held on the executions observed.",
+   "rid-based simulcast publishers are not generated; per-stream requests and aborts are modelled as lasting until the next push (documented in the evidence assumptions).", "5/C07"),
 }
 
 NOT_YET = "check not built yet in this session (work in progress, see DESIGN.md section 9)"
